@@ -1,15 +1,15 @@
 SPECIFICATION Spec
 CONSTANTS
   Repaired = TRUE
-  NColsSet = {3}
-  NRowsSet = {1, 2}
+  NColsSet = {2}
+  NRowsSet = {2, 3}
   HdrSet = {FALSE}
   StyleSet = {"ascii", "borderless"}
-  AvailSet <- A3to10
+  AvailSet <- ADup
   IndSet = {0}
   AlignMode = 0
-  DupMode = FALSE
-  Pool <- PoolTiny
+  DupMode = TRUE
+  Pool <- PoolDup
 INVARIANT TypeOK
 INVARIANT InvSucceeds
 INVARIANT InvFits
